@@ -55,7 +55,12 @@ def replay(rec, ctx):
     integ = (CartesianRayTransferIntegrator if kind == "cart" else CylindricalRayTransferIntegrator)(step=length * 2.0, min_samples=n)
     sp = Spectrum(600.0, 601.0, mat.bins)
     ident = AffineMatrix3D()
-    integ.integrate(sp, None, None, None, mat, Point3D(*p0), Point3D(*p1), ident, ident)
+    # the object sits displaced and rotated in the world: the integrator is handed the end points of the chord in world
+    # coordinates together with the two transforms (RayTransfer.tla works in the object's own lattice coordinates)
+    from raysect.core import translate, rotate_x, rotate_z
+    p2w = translate(0.7, -1.3, 0.4) * rotate_z(33.0) * rotate_x(21.0)
+    w2p = p2w.inverse()
+    integ.integrate(sp, None, None, None, mat, Point3D(*p0).transform(p2w), Point3D(*p1).transform(p2w), w2p, p2w)
     got = [float(x) for x in sp.samples]
     # RayTransfer.tla works in lattice units: the same grid and ray in millimetres give the same entries in millimetres
     # (every fifth behaviour; cylindrical angles are unchanged)
